@@ -124,9 +124,161 @@ theorem toggleLoop_ok {i src : Nat} : ∀ (es : List Str) (g g' : G) (m : Bool),
               · subst hjt
                 have hv : (g.put j .null src).valOf j = .null := put_valOf_same (by rw [hinv.hv]; exact htlt) _ _
                 have hs : (g.put j .null src).setter j = src := put_setter_same (by rw [hinv.hs]; exact htlt) _ _
-                simp [hv, hs, Val.isNull, hti, hnull']
+                have hn : Val.null.isNull = true := rfl
+                simp [hv, hs, hn, hti, hnull']
               · have hne : t ≠ j := fun h => hjt h.symm
                 rw [put_valOf_ne hne, put_setter_ne hne]
                 simp [hjt]
+
+/-! ## `set_option` -/
+
+/-- value and setter of option `j` after a successful `set_option(i, arg, src)`: the option itself takes the new
+    value, every *other* option of its toggle list that was on is switched off, both record `src`; the rest is
+    unchanged -/
+def setSpec (g : G) (i : Nat) (arg : Option Str) (src : Nat) (j : Nat) : Val × Nat :=
+  if j = i then (newVal (g.opt i) arg, src)
+  else if j ∈ listIdx g.opts (g.opt i).toggle ∧ (g.valOf j).isNull = false then (.null, src)
+  else (g.valOf j, g.setter j)
+
+theorem setOption_ok {g g' : G} {i src : Nat} {arg : Option Str} {m : Bool} (hinv : Inv g) (hi : i < g.opts.length)
+    (h : setOption g i arg src = .done g' .ok m) :
+    m = false ∧ Inv g' ∧ SameFrame g g' ∧ g.setter i ≠ src ∧ verifyTypeRange (g.opt i) arg src = .good ∧
+    (∀ e ∈ optlistElems (g.opt i).toggle, (optlistResolve g.opts e).isSome) ∧
+    ∀ j, (g'.valOf j, g'.setter j) = setSpec g i arg src j := by
+  unfold setOption at h
+  by_cases hs : g.setter i = src
+  · simp [hs] at h
+  · have hs' : (g.setter i == src) = false := by simp [hs]
+    simp only [hs'] at h
+    cases hv : verifyTypeRange (g.opt i) arg src with
+    | fault => simp [hv] at h
+    | exc => simp [hv] at h
+    | bad => simp [hv] at h
+    | good =>
+      simp only [hv] at h
+      have hinv1 : Inv (g.put i (newVal (g.opt i) arg) src) := put_inv hinv _ _ _
+      obtain ⟨hm, hi', hf, hres, hj⟩ := toggleLoop_ok _ _ _ _ hinv1 (by simpa using h)
+      refine ⟨hm, hi', (put_sameFrame _ _ _ _).trans hf, hs, rfl, by simpa using hres, ?_⟩
+      intro j
+      rw [hj j]
+      simp only [toggleSpec, setSpec, put_opts, listIdx]
+      by_cases hji : j = i
+      · subst hji
+        simp [put_valOf_same (show j < g.val.length by rw [hinv.hv]; exact hi), put_setter_same (show j < g.setby.length by rw [hinv.hs]; exact hi)]
+      · have hne : i ≠ j := fun h => hji h.symm
+        simp [hji, put_valOf_ne hne, put_setter_ne hne]
+
+/-- an unsuccessful `set_option` that fails before the toggle loop (already set by this source, wrong type, out of
+    range) leaves the object untouched -/
+theorem setOption_rejected {g : G} {i src : Nat} {arg : Option Str}
+    (h : g.setter i = src ∨ verifyTypeRange (g.opt i) arg src = .bad) :
+    setOption g i arg src = .done g .esyntax true := by
+  unfold setOption
+  by_cases hs : g.setter i = src
+  · simp [hs]
+  · have hs' : (g.setter i == src) = false := by simp [hs]
+    rcases h with h | h
+    · exact absurd h hs
+    · simp [hs', h]
+
+/-- what makes a table row usable: a known type, no range on string types, option lists whose elements resolve -/
+structure WFOpt (opts : List Opt) (o : Opt) : Prop where
+  type_le : o.type ≤ 6
+  norange : isStringy o.type = true → o.range = none
+  tog : ∀ e ∈ optlistElems o.toggle, (optlistResolve opts e).isSome
+  req : ∀ e ∈ optlistElems o.required, (optlistResolve opts e).isSome
+  inc : ∀ e ∈ optlistElems o.incompat, (optlistResolve opts e).isSome
+
+def WF (opts : List Opt) : Prop := ∀ o ∈ opts, WFOpt opts o
+
+/-- the two acceptable outcomes of an API call: success without message, usage error with message -/
+def Clean (st : Status) (m : Bool) : Prop := (st = .ok ∧ m = false) ∨ (st = .esyntax ∧ m = true)
+
+theorem verifyTypeRange_noexc {opts : List Opt} {o : Opt} (h : WFOpt opts o) (val : Option Str) (src : Nat) :
+    verifyTypeRange o val src ≠ .exc := by
+  have h1 := h.type_le
+  have h2 := h.norange
+  unfold verifyTypeRange
+  split
+  · simp
+  · split
+    · simp
+    · split <;> (try split) <;> (try split) <;> simp
+    · split <;> (try split) <;> (try split) <;> simp
+    · split <;> (try split) <;> (try split) <;> simp
+    · rename_i ht; simp [isStringy, ht] at h2; simp [h2]
+    · rename_i ht; simp [isStringy, ht] at h2; simp [h2]
+    · rename_i ht; simp [isStringy, ht] at h2; simp [h2]
+    · rename_i a0 a1 a2 a3 a4 a5 a6
+      exfalso
+      have : o.type = 0 ∨ o.type = 1 ∨ o.type = 2 ∨ o.type = 3 ∨ o.type = 4 ∨ o.type = 5 ∨ o.type = 6 := by omega
+      rcases this with h | h | h | h | h | h | h
+      · exact a0 h
+      · exact a1 h
+      · exact a2 h
+      · exact a3 h
+      · exact a4 h
+      · exact a5 h
+      · exact a6 h
+
+theorem verifyTypeRange_nofault {o : Opt} {val : Option Str} {src : Nat} (h : val.isSome ∨ o.type ≠ 3) :
+    verifyTypeRange o val src ≠ .fault := by
+  unfold verifyTypeRange
+  split
+  · simp
+  · split
+    · simp
+    · split <;> (try split) <;> (try split) <;> simp
+    · split <;> (try split) <;> (try split) <;> simp
+    · rename_i ht
+      split
+      · rcases h with h | h
+        · simp at h
+        · exact absurd ht h
+      · split <;> (try split) <;> simp
+    · split <;> simp
+    · split <;> simp
+    · split <;> simp
+    · simp
+
+theorem toggleLoop_total {i src : Nat} : ∀ (es : List Str) (g : G), Inv g → (∀ e ∈ es, (optlistResolve g.opts e).isSome) →
+    ∃ g' st m, toggleLoop g i src es = .done g' st m ∧ Clean st m ∧ Inv g' ∧ SameFrame g g' := by
+  intro es
+  induction es with
+  | nil => intro g hinv _; exact ⟨g, .ok, false, rfl, Or.inl ⟨rfl, rfl⟩, hinv, SameFrame.refl _⟩
+  | cons e es ih =>
+    intro g hinv hres
+    have hre := hres e (List.mem_cons_self)
+    have hres' : ∀ e' ∈ es, (optlistResolve g.opts e').isSome := fun e' he' => hres e' (List.mem_cons_of_mem _ he')
+    unfold toggleLoop
+    cases hr : optlistResolve g.opts e with
+    | none => simp [hr] at hre
+    | some t =>
+      simp only
+      split
+      · exact ih g hinv hres'
+      · split
+        · exact ih g hinv hres'
+        · split
+          · exact ⟨g, .esyntax, true, rfl, Or.inr ⟨rfl, rfl⟩, hinv, SameFrame.refl _⟩
+          · obtain ⟨g', st, m, h1, h2, h3, h4⟩ := ih (g.put t .null src) (put_inv hinv _ _ _) (by simpa using hres')
+            exact ⟨g', st, m, h1, h2, h3, (put_sameFrame _ _ _ _).trans h4⟩
+
+/-- `set_option` on a well-formed row never crashes and never raises an exception: it succeeds silently or
+    reports a usage error with a message -/
+theorem setOption_total {g : G} {i src : Nat} {arg : Option Str} (hinv : Inv g) (hw : WFOpt g.opts (g.opt i))
+    (harg : arg.isSome ∨ (g.opt i).type ≠ 3) :
+    ∃ g' st m, setOption g i arg src = .done g' st m ∧ Clean st m ∧ Inv g' ∧ SameFrame g g' := by
+  unfold setOption
+  split
+  · exact ⟨g, .esyntax, true, rfl, Or.inr ⟨rfl, rfl⟩, hinv, SameFrame.refl _⟩
+  · cases hv : verifyTypeRange (g.opt i) arg src with
+    | fault => exact absurd hv (verifyTypeRange_nofault harg)
+    | exc => exact absurd hv (verifyTypeRange_noexc hw _ _)
+    | bad => exact ⟨g, .esyntax, true, rfl, Or.inr ⟨rfl, rfl⟩, hinv, SameFrame.refl _⟩
+    | good =>
+      obtain ⟨g', st, m, h1, h2, h3, h4⟩ := toggleLoop_total (i := i) (src := src) (optlistElems (g.opt i).toggle)
+        (g.put i (newVal (g.opt i) arg) src) (put_inv hinv _ _ _) (by simpa using hw.tog)
+      exact ⟨g', st, m, h1, h2, h3, (put_sameFrame _ _ _ _).trans h4⟩
 
 end EaselModel.Getopts
